@@ -7,7 +7,13 @@ and look only at the case and at what the implementation did.
 
 A command's outcome is one of: exit 0 / a positive exit code / a NEGATIVE return code (the command
 kills itself with a signal) / it cannot be started at all (no such executable, file not executable,
-instruction that cannot be split into arguments, missing cwd of its map).
+instruction that cannot be split into arguments, missing cwd of its map). Its output is ASCII text of any
+size (a family writes more than a pipe buffer to stdout / stderr / both).
+
+Every case runs in a process group of its own under a deadline (impl.isolated): a step that never returns
+(an event loop that never finishes, a pipe nobody drains) is the observation `hang` and the violation
+"<kind>:step-never-returned", never a hang of the check. For the concurrent steps the moment the step returns
+is observed too: every command it started must have finished by then ("wait for all of them").
 """
 from __future__ import annotations
 
@@ -21,7 +27,8 @@ from .. import common
 from .. import impl_c17 as impl
 
 LEAN_MODULES = ['Props.C17']
-TRUSTED = ['harness/props/c17.py, harness/impl_c17.py (child script, release protocol, monitors, canonicaliser)',
+TRUSTED = ['harness/props/c17.py, harness/impl_c17.py (child script, release protocol, per-case process group with '
+           'deadline, monitors, canonicaliser)',
            'CPython subprocess / asyncio subprocess / shlex, /bin/sh, OS process exit status and signal delivery']
 ASSUMPTIONS = [
     'a command is characterised by whether it can be started (else: the exception type of the spawn call), its '
@@ -288,6 +295,32 @@ def async_fault_cases(env):
     return dedup(cases)
 
 
+def big_output_cases(env):
+    """Directed: commands that write more than a pipe buffer (64 KiB) to stdout, stderr or both - with save
+    (captured: text / bytes) and without (inherited), exit 0 / non-zero, alone, first or last of a run list /
+    of concurrent lanes / of a serial sub-list."""
+    cases = []
+    line = 'x' * 99 + '\n'
+    for vi, (orep, erep) in enumerate(((700, 1), (1, 700), (3000, 3000))):
+        for n, pos in ((1, 0), (2, 0), (3, 2)):
+            for code in (0, 3):
+                ps = mk_procs([0] * n, vi)
+                ps[pos].update({'out': line, 'err': 'e ' + line, 'orep': orep, 'erep': erep, 'code': code})
+                for si, (shape, cfg) in enumerate(serial_shapes(ps, n)):
+                    if shape.split('/')[0] in ('map1', 'runlist', 'expanded', 'flat', 'str'):
+                        cases.append({'kind': 'serial', 'step': 'cmd' if (vi + si + n) % 2 else 'shell', 'shape': shape,
+                                      'n': n, 'cfg': cfg, 'big': True})
+                for part in ([n], [1] * n):
+                    lanes = cut(ps, part)
+                    scheds = schedules(part, full=True)
+                    for si, (shape, cfg) in enumerate(async_shapes(lanes, vi)):
+                        if shape.split('/')[0] in ('maprun', 'toplist', 'toplist+sub', 'map1'):
+                            cases.append({'kind': 'async', 'step': 'cmds' if (vi + si + n) % 2 else 'shells', 'shape': shape,
+                                          'n': n, 'lanes': len(part), 'cfg': cfg, 'sched': scheds[(vi + si) % len(scheds)],
+                                          'big': True})
+    return dedup(cases)
+
+
 def fault_name(f):
     if isinstance(f, str):
         return 'unstartable:' + f
@@ -395,7 +428,7 @@ def model_view(case, m):
     errors = [err(e, 'pypyr.errors.SubprocessError') for e in m['errors']]
     return {'trace': impl.canon_trace(m['trace']), 'started': sorted(m['started']),
             'err_type': 'pypyr.errors.MultiError' if errors else None, 'errors': errors, 'cmdOut': co,
-            'running_at_return': [], 'anomalies': []}
+            'running_at_return': m['running'], 'anomalies': []}
 
 
 def impl_view(case, o):
@@ -414,8 +447,8 @@ def py_rstrip(s):
 
 def expected_streams(p, text):
     if text:
-        return py_rstrip(p['out']), py_rstrip(p['err'])
-    return p['out'], p['err']
+        return py_rstrip(impl.eff_out(p)), py_rstrip(impl.eff_err(p))
+    return impl.eff_out(p), impl.eff_err(p)
 
 
 def stream_text(o):
@@ -527,6 +560,13 @@ def monitor_async(case, o):
             bad.append(('async:command-started-after-failure-in-serial-sub-list', f'command {a[1]} started'))
         elif a[0] == 'never_happened' and a[1][0] == 'all_started':
             pass    # reported as not_started_concurrently
+        elif a[0] == 'step_finished_before':
+            what = a[1]
+            clause = {'all_started': 'async:returned-before-every-top-level-entry-had-started',
+                      'started': 'async:returned-before-the-next-command-of-a-sub-list-had-started',
+                      'done': 'async:returned-before-every-started-command-finished',
+                      'reaped': 'async:returned-before-every-started-command-finished'}.get(what[0], 'async:protocol:' + a[0])
+            bad.append((clause, f'the step returned while the harness was still waiting for {what}'))
         else:
             bad.append(('async:protocol:' + a[0], str(a[1:])))
     if o.get('running_at_return'):
@@ -588,6 +628,7 @@ def execute(env, res, cases):
     """Model first (one batch), then the implementation in worker processes, then compare + judge."""
     ctx = multiprocessing.get_context('fork')
     nproc = max(2, min(14, (os.cpu_count() or 4) - 2))
+    impl.begin_run()
     pool = ctx.Pool(nproc, initializer=impl.worker_init)   # before the driver exists: no inherited pipes
     try:
         models = env.driver.ask_many([model_requests(c) for c in cases])
@@ -616,6 +657,7 @@ def execute(env, res, cases):
     finally:
         pool.terminate()
         pool.join()
+        impl.end_run()
 
 
 def judge(res, c, m, o):
@@ -630,6 +672,8 @@ def judge(res, c, m, o):
     res.count('outcome:' + ('error' if failing else 'ok'))
     res.count(f'started:{nstart}/{c["n"]}')
     res.count(f"failure:{c['kind']}:{fault}")
+    if c.get('big'):
+        res.count(f"big-output:{c['kind']}")
     if 'pos' in c:
         res.count(f"faultpos:{c['kind']}:{c['fault']}@{c['pos']}")
     if c['kind'] == 'async':
@@ -667,11 +711,17 @@ def run(env, res):
                 'first/middle/last of run lists and serial sub-lists) x the same shapes, sync and async, with and '
                 'without a later exit 1. quick = seeded sample of A + sample of B stratified by (failure kind, '
                 'position); then a random stream with any mix of outcomes and arbitrary schedules. Every case runs '
-                'real subprocesses (marker files prove which commands started); non-trivial = all')
+                'real subprocesses (marker files prove which commands started); non-trivial = all. directed C: a '
+                'command writing more than a pipe buffer (70 KB / 300 KB) to stdout, stderr or both x save text / '
+                'bytes / off x position x sync and async shapes. Each case runs in its own process group under a '
+                '25 s deadline: a step that does not return is a violation (step-never-returned) with the case as '
+                'replay; for cmds/shells the commands still running at the moment the step returns are observed '
+                '(must be none).')
     ser, asy = serial_cases(env), async_cases(env)
     fser, fasy = serial_fault_cases(env), async_fault_cases(env)
+    big = big_output_cases(env)
     res.extra['directed_set'] = {'serial': len(ser), 'async': len(asy), 'serial_faults': len(fser),
-                                 'async_faults': len(fasy)}
+                                 'async_faults': len(fasy), 'big_outputs': len(big)}
     if env.quick:
         def allzero(c):
             return all(not failed(p) for p in case_procs(c).values())
@@ -682,9 +732,10 @@ def run(env, res):
         fser = stratified(env.rng, fser, key, 12)
         fasy = stratified(env.rng, fasy, key, 8)
         rnd = random_cases(env, 150)
+        big = stratified(env.rng, big, lambda c: (c['kind'], c['shape'].split('/')[0]), 3)
     else:
         rnd = random_cases(env, 1200)
-    execute(env, res, fser + fasy + ser + asy + rnd)
+    execute(env, res, fser + fasy + big + ser + asy + rnd)
 
 
 def replay(env, res, case):
